@@ -23,8 +23,8 @@ checks = {
              text="Outcome class of every decode (packet / malformed / need-more) against an independent fixed-header parser, bytes consumed, max-size enforcement, and chunking independence through tokio_util Framed (client codecs) and rumqttd Network::read/readv; exhaustive for strings of length <=2 and all first-byte x remaining-length-prefix combinations, mutation and random beyond."),
  "C06": dict(level="exploration", ref="3 C06, Appendix A", tech="runtime monitoring: per-connection reply sequence predicted by a sequential reference broker, compared online with every DeviceAck the real router emits; plus threaded rounds with an offline history checker", note=S4_NOTE + S5_ADD,
              text="For the packets each DeviceData step actually consumed the model emits the owed reply sequence; every ack the router puts into a link's buffer must be the head of that link's sequence (kind, packet id, return codes, right client, order) and nothing may be owed at quiescent points; QoS 2 publishes enter the acceptance log only at PUBREL, so a forward before release is spurious."),
- "C08": dict(level="exploration", ref="3 C08", tech="runtime monitoring: seeded histories with persistent sessions ended in every flavour at random points, resume oracle from a sequential reference broker (restart at oldest unacknowledged QoS>0 message)", note=S4_NOTE,
-             text="session_present, restored subscriptions, delivery of messages accepted while away, redelivery from the oldest unacknowledged QoS>0 message and no redelivery of acknowledged ones, clean connects starting empty; disconnect flavours: DISCONNECT, link drop, router-initiated close, take-over; sampled (not enumerated) disconnect points, hence exploration."),
+ "C08": dict(level="fault_enumeration", ref="3 C08", tech="runtime monitoring with fault enumeration: for seeded base histories the end of a persistent session is injected before every operation in each of four flavours, then resumed; resume oracle from a sequential reference broker (restart at oldest unacknowledged QoS>0 message)", note=S4_NOTE,
+             text="session_present, restored subscriptions, delivery of messages accepted while away, redelivery from the oldest unacknowledged QoS>0 message and no redelivery of acknowledged ones, clean connects starting empty. For every base history (12 quick / 1500 thorough, 25-60 operations, 2-4 persistent clients, bursts) the session end is injected before EVERY operation x {DISCONNECT packet, link failure, router-initiated close after a bad ack, take-over} (exhaustive per base history; base histories sampled), followed by a resume; plus random histories with 1-4 reconnect cycles and alternating clean flags."),
  "C09": dict(level="exploration", ref="3 C09", tech="runtime monitoring: boundary shadow of unacknowledged forwards per client at the router/link boundary (window <=100, id uniqueness, close on bad ack) and resumption at quiescence with acks as only stimulus", note=S4_NOTE,
              text="On every QoS>0 forward: packet id non-zero and not in the boundary-unacked set, at most 100 outstanding; unsolicited / out-of-order acks must close that connection and only that one; backlog must be completely forwarded at quiescent points reached with in-order acks as the only stimulus. Reuse of an id between PUBREC and PUBCOMP is counted in the evidence, not judged (see DESIGN.md 'readings')."),
  "C14": dict(level="exploration", ref="3 C14", tech="runtime monitoring: an always-present well-behaved publisher/subscriber pair judged by all delivery/ack oracles while other clients misbehave; closed-without-cause oracle; stale events of ended links injected around slot reuse; plus threaded rounds with a hostile reconnect-storm thread", note=S4_NOTE + S5_ADD,
